@@ -63,14 +63,12 @@ ASSUMPTIONS = [
     'run when the whole input text is encodable in that encoding (otherwise counted as skip:unencodable:<enc>); '
     'TextIOWrapper newline= is drawn from {None, "", "\\n"} once per case, disk files use the default (universal '
     'newlines: only the CR that marker lines may carry before their LF is affected)',
-    'GUARD (under-demand): Dsc/Changes given a text file object whose declared encoding is not UTF-8 are judged only '
-    'when the whole input text is pure ASCII and the encoding is ASCII-compatible (iso-8859-1/latin-1/cp1252).  '
-    'Otherwise (non-ASCII text with an 8-bit encoding; any text with utf-16) the live tree itself disagrees: '
-    '_gpg_multivalued.__init__ re-encodes every str line with the FILE\'s declared encoding and hands those bytes to the '
-    'Deb822 parser, which decodes them with its own encoding= (UTF-8 default) - mojibake via charset detection for '
-    'latin-1/cp1252, ValueError or an empty result for utf-16.  These forms are executed on a sample of the cases and '
-    'only COUNTED (unjudged:gpg-api-on-non-utf8-text-file:agree|differ|raise); Deb822(f) and iter_paragraphs(f) are '
-    'judged for every encoding',
+    'Dsc/Changes given a text file object with a declared non-UTF-8 encoding are judged like every other form (they used to '
+    'return mojibake: _gpg_multivalued.__init__ re-encoded the lines with the file\'s encoding but the parser decoded them as '
+    'UTF-8 - repaired in /repo by fix 0288b25, see known_findings.json)',
+    'GUARD (under-demand): Dsc/Changes on a text file whose declared encoding is not ASCII-compatible (utf-16) are executed on a '
+    'sample and only COUNTED (unjudged:gpg-api-on-non-utf8-text-file:*): the gpg-aware classes search the armour markers in the '
+    'encoded BYTES, and the quantifier speaks of printable/UTF-8 values; Deb822(f) and iter_paragraphs(f) are judged for utf-16 too',
 ]
 ANCHORS = ['debian.deb822:Deb822._internal_parser',
            'debian.deb822:Deb822._skip_useless_lines',
@@ -119,7 +117,7 @@ FLOORS = {
                            'enc-ascii:utf-16': 3600, 'enc-ascii:cp1252': 5300, 'enc-ascii:iso-8859-1': 2600,
                            'enc-ascii:latin-1': 2600,
                            'encfile-api:Deb822': 14500, 'encfile-api:iter_paragraphs': 20000,
-                           'gpgapi-encfile:utf-8': 3900, 'gpgapi-encfile:8bit-ascii-text': 3400}},
+                           'gpgapi-encfile:utf-8': 3900, 'gpgapi-encfile:non-utf-8': 3400}},
 }
 FLOORS['thorough'] = {
     # ~50% of what a thorough run on the current tree measures (seed 0)
@@ -142,7 +140,7 @@ FLOORS['thorough'] = {
                  'enc-ascii:utf-16': 81000, 'enc-ascii:cp1252': 110000, 'enc-ascii:iso-8859-1': 57000,
                  'enc-ascii:latin-1': 57000,
                  'encfile-api:Deb822': 470000, 'encfile-api:iter_paragraphs': 760000,
-                 'gpgapi-encfile:utf-8': 130000, 'gpgapi-encfile:8bit-ascii-text': 70000}}
+                 'gpgapi-encfile:utf-8': 130000, 'gpgapi-encfile:non-utf-8': 70000}}
 
 CONTAINERS = ('str', 'bytes', 'lines_nl', 'lines_nonl', 'textio', 'bytesio')
 # real file objects.  'tw:<enc>' = io.TextIOWrapper(io.BytesIO(text.encode(enc)), encoding=enc),
@@ -673,8 +671,8 @@ def evaluate(ctx, case, record=True):
                         judged = True
                         if encfile and api in ('Dsc', 'Changes'):
                             enc = cont[3:]
-                            if enc not in UTF8_SPELLINGS and not (text_ascii and enc in ASCII_COMPATIBLE_8BIT):
-                                # see ASSUMPTIONS (GUARD): the live tree itself disagrees here; counted, never judged
+                            if enc not in UTF8_SPELLINGS and enc not in ASCII_COMPATIBLE_8BIT:
+                                # utf-16: see ASSUMPTIONS (the gpg-aware classes look for the armour in the BYTES)
                                 judged = False
                                 if not record or salt % UNJUDGED_SAMPLE:
                                     continue
@@ -712,7 +710,7 @@ def evaluate(ctx, case, record=True):
                                     ctx.count('enc-ascii:%s' % enc)
                                 ctx.count('encfile-api:%s' % api)
                                 if api in ('Dsc', 'Changes'):
-                                    ctx.count('gpgapi-encfile:%s' % ('utf-8' if enc in UTF8_SPELLINGS else '8bit-ascii-text'))
+                                    ctx.count('gpgapi-encfile:%s' % ('utf-8' if enc in UTF8_SPELLINGS else 'non-utf-8'))
                             elif cont == 'binfile':
                                 ctx.mon('M.binfile')
                         try:
